@@ -52,15 +52,22 @@ class JsonShim(object):
 
     def __init__(self):
         self.table = {}
+        self.by_term = {}
 
     def reset(self):
         self.table = {}
+        self.by_term = {}
 
     def _default(self, o):
         if isinstance(o, (core.SNum, core.SBool)):
-            k = len(self.table)
-            self.table[TOKEN % k] = o
-            return TOKEN % k
+            # one token per solver term: equal data serialises to equal text (as real floats would)
+            key = o.t.get_id()
+            tok = self.by_term.get(key)
+            if tok is None:
+                tok = TOKEN % len(self.table)
+                self.by_term[key] = tok
+                self.table[tok] = o
+            return tok
         raise TypeError('Object of type %s is not JSON serializable' % type(o).__name__)
 
     def dumps(self, obj, *a, **kw):
@@ -149,6 +156,15 @@ def _make_individual(ctx, tag, iid, other=None, rich=True):
     return ind
 
 
+def _save(ind):
+    return (list(ind.costs), list(ind.costs_signed), list(ind.vector), ind.population_id, dict(ind.features), dict(ind.custom))
+
+
+def _restore(ind, saved):
+    ind.costs, ind.costs_signed, ind.vector, ind.population_id = list(saved[0]), list(saved[1]), list(saved[2]), saved[3]
+    ind.features, ind.custom = dict(saved[4]), dict(saved[5])
+
+
 def _mutate(ctx, ind, tag):
     ind.costs = [ctx.real('%s_c0' % tag), ctx.real('%s_c1' % tag)]
     ind.costs_signed = [ctx.real('%s_s0' % tag), ctx.real('%s_s1' % tag), not ind.costs_signed[-1]]
@@ -190,6 +206,7 @@ def history(args):
                 prob.individuals.append(ind)
             last = {}
             nmut = 0
+            saved = {}
             for op in ops_list:
                 if op.startswith('sync'):
                     ind = inds[int(op[4:])]
@@ -197,7 +214,10 @@ def history(args):
                     last[ind.id] = _snapshot(ind)
                 elif op.startswith('mut'):
                     nmut += 1
+                    saved[int(op[3:])] = _save(inds[int(op[3:])])
                     _mutate(ctx, inds[int(op[3:])], 'm%d' % nmut)
+                elif op.startswith('rev'):          # the data goes back to what it was before the last mutation
+                    _restore(inds[int(op[3:])], saved[int(op[3:])])
                 elif op == 'all':
                     store.sync_all()
                     for ind in prob.individuals:
@@ -312,6 +332,9 @@ def configs(tier):
         ('s0-s1-m0-all', ['sync0', 'sync1', 'mut0', 'all'], 2, False),
         ('same-id-last-wins', ['sync0', 'sync1'], 2, True),
         ('all-m1-s1', ['all', 'mut1', 'sync1'], 2, False),
+        # a row rewritten individually between two bulk syncs, data reverted in between (stale-cache pattern)
+        ('all-m0-s0-rev0-all', ['all', 'mut0', 'sync0', 'rev0', 'all'], 1, False),
+        ('s0-all-m0-s0-rev0-all', ['sync0', 'all', 'mut0', 'sync0', 'rev0', 'all'], 2, False),
     ]
     if not Q:
         H += [('s0-m0-s0-m0-s0', ['sync0', 'mut0', 'sync0', 'mut0', 'sync0'], 1, False),
